@@ -436,8 +436,15 @@ fn run_case(cfg: &Value, case: &Value, ln: usize) -> (Vec<Mismatch>, Value, Vec<
         sched.events.lock().unwrap().clear();
         let settled = match act {
             "DropSender" => {
-                drop(sender_opt.take());
-                Some(Status::Finished)
+                // (on a helper thread under the watchdog: dropping the sender takes the channel's lock, and a thread of
+                // the schedule that sits inside a critical section would hang the driver itself)
+                let s = sender_opt.take();
+                let (tx, rx) = std::sync::mpsc::channel();
+                std::thread::spawn(move || {
+                    drop(s);
+                    let _ = tx.send(());
+                });
+                if rx.recv_timeout(STEP_TIMEOUT).is_ok() { Some(Status::Finished) } else { None }
             }
             "AttemptEnd" => sched.step("recv", Cmd::Outcome(o["outcome"].as_str().unwrap().to_string(), items_of(&o["rem"])), STEP_TIMEOUT),
             "Kill" => sched.step("recv", Cmd::Kill, STEP_TIMEOUT),
